@@ -117,6 +117,8 @@ class Director:
     def _index(self):
         self.by_key = collections.defaultdict(list)
         for i, st in enumerate(self.plan.get("steps", [])):
+            if "actor" not in st:
+                continue  # steps of worlds that do not run an operator
             k = (st.get("life", 0), st["actor"], st["hook"], st.get("cycle"), st.get("node"), st.get("iter"))
             self.by_key[k].append((i, st))
         self.conv = {}
